@@ -86,6 +86,10 @@ class _Expr(ast.NodeTransformer):
                 and len(node.args) >= 1 and isinstance(node.args[0], ast.Call) and isinstance(node.args[0].func, ast.Attribute) \
                 and node.args[0].func.attr == "keys" and not node.args[0].args and not node.args[0].keywords:
             node.args[0] = node.args[0].func.value
+        # R13: np.logical_or / np.logical_and of two comparisons (boolean arrays) -> | / &
+        if isinstance(node.func, ast.Attribute) and _dotted(node.func) in ("np.logical_or", "np.logical_and") and len(node.args) == 2 \
+                and not node.keywords and all(isinstance(a, ast.Compare) for a in node.args):
+            return ast.BinOp(left=node.args[0], op=ast.BitOr() if node.func.attr == "logical_or" else ast.BitAnd(), right=node.args[1])
         # R1
         if _is_call(node, "list") and (isinstance(node.args[0], ast.ListComp) or _is_call(node.args[0], "list")):
             return node.args[0]
@@ -94,6 +98,15 @@ class _Expr(ast.NodeTransformer):
             a = node.args[0]
             if (_is_call(a, "list") or _is_call(a, "tuple")) and (_is_call(a.args[0], "set") or isinstance(a.args[0], (ast.ListComp, ast.List))):
                 node.args[0] = a.args[0]
+        return node
+
+    def visit_ListComp(self, node):
+        self.generic_visit(node)
+        # R10: [x for x in E] -> list(E)
+        if len(node.generators) == 1 and not node.generators[0].ifs and not node.generators[0].is_async \
+                and isinstance(node.elt, ast.Name) and isinstance(node.generators[0].target, ast.Name) \
+                and node.elt.id == node.generators[0].target.id:
+            return ast.Call(func=ast.Name(id="list", ctx=ast.Load()), args=[node.generators[0].iter], keywords=[])
         return node
 
     def visit_Compare(self, node):
@@ -258,6 +271,95 @@ def _inline_in(stmts, func):
         if isinstance(s, ast.Assign) and len(s.targets) == 1 and isinstance(s.targets[0], ast.Name) \
                 and isinstance(s.value, ast.Name) and s.value.id == s.targets[0].id:
             i += 1
+            continue
+        # R18: x = self.attr (or `not self.attr`), x bound once, no attribute of that name stored in this function: a local alias of an
+        #      attribute that the function does not change -- every read of x is a read of the attribute
+        if isinstance(s, ast.Assign) and len(s.targets) == 1 and isinstance(s.targets[0], ast.Name):
+            x, v = s.targets[0].id, s.value
+            core = v.operand if isinstance(v, ast.UnaryOp) and isinstance(v.op, ast.Not) else v
+            d = _dotted(core)
+            if isinstance(core, ast.Attribute) and d is not None and d.split(".")[0] == "self" and d.count(".") == 1 and _stores(func, x) == 1:
+                root, last = d.split(".")[0], core.attr
+                rest = stmts[i + 1:]
+                attr_stored = any(isinstance(n, ast.Attribute) and n.attr == last and isinstance(n.ctx, (ast.Store, ast.Del)) for n in ast.walk(func))
+                root_stored = any(isinstance(n, ast.Name) and n.id == root and isinstance(n.ctx, (ast.Store, ast.Del)) for n in ast.walk(func))
+                uses = sum(_loads(r, x) for r in rest)
+                if not attr_stored and not root_stored and uses >= 1 and _loads(func, x) == uses:
+                    stmts[i + 1:] = [_Subst(x, v).visit(r) for r in rest]
+                    i += 1
+                    continue
+        # R19: L.extend(E for v in X)  ->  for v in X: L.append(E)      (a generator argument is consumed element by element)
+        if isinstance(s, ast.Expr) and isinstance(s.value, ast.Call) and isinstance(s.value.func, ast.Attribute) and s.value.func.attr == "extend" \
+                and isinstance(s.value.func.value, ast.Name) and len(s.value.args) == 1 and not s.value.keywords \
+                and isinstance(s.value.args[0], ast.GeneratorExp) and len(s.value.args[0].generators) == 1 \
+                and not s.value.args[0].generators[0].ifs and not s.value.args[0].generators[0].is_async:
+            g = s.value.args[0]
+            app = ast.Expr(value=ast.Call(func=ast.Attribute(value=s.value.func.value, attr="append", ctx=ast.Load()), args=[g.elt], keywords=[]))
+            stmts[i] = ast.For(target=g.generators[0].target, iter=g.generators[0].iter, body=[app], orelse=[], lineno=s.lineno)
+            continue
+        # R17: assert np.all([P for v in X])  ->  assert all(P for v in X)     (same truth value, also for an empty X)
+        if isinstance(s, ast.Assert) and isinstance(s.test, ast.Call) and _dotted(s.test.func) == "np.all" and len(s.test.args) == 1 \
+                and not s.test.keywords and isinstance(s.test.args[0], ast.ListComp):
+            lc = s.test.args[0]
+            stmts[i] = ast.Assert(test=ast.Call(func=ast.Name(id="all", ctx=ast.Load()), args=[ast.GeneratorExp(elt=lc.elt, generators=lc.generators)],
+                                                keywords=[]), msg=s.msg, lineno=s.lineno)
+            continue
+        # R14: if A: continue; if B: continue  ->  if A or B: continue   (same order of evaluation; also break)
+        if isinstance(s, ast.If) and not s.orelse and len(s.body) == 1 and isinstance(s.body[0], (ast.Continue, ast.Break)) \
+                and i + 1 < len(stmts) and isinstance(stmts[i + 1], ast.If) and not stmts[i + 1].orelse and len(stmts[i + 1].body) == 1 \
+                and type(stmts[i + 1].body[0]) is type(s.body[0]):
+            a, b = s.test, stmts[i + 1].test
+            vals = (a.values if isinstance(a, ast.BoolOp) and isinstance(a.op, ast.Or) else [a]) + \
+                   (b.values if isinstance(b, ast.BoolOp) and isinstance(b.op, ast.Or) else [b])
+            stmts[i:i + 2] = [ast.If(test=ast.BoolOp(op=ast.Or(), values=vals), body=s.body, orelse=[], lineno=s.lineno)]
+            continue
+        # R12: a loop over a literal table of atoms is unrolled:  for a, b in ((1, X), (2, Y)): S  ->  S[a:=1, b:=X]; S[a:=2, b:=Y]
+        if isinstance(s, ast.For) and not s.orelse and isinstance(s.iter, (ast.Tuple, ast.List)) and 1 <= len(s.iter.elts) <= 12:
+            names = [s.target.id] if isinstance(s.target, ast.Name) else (
+                [e.id for e in s.target.elts] if isinstance(s.target, ast.Tuple) and all(isinstance(e, ast.Name) for e in s.target.elts) else None)
+
+            def atom(e):
+                return isinstance(e, ast.Constant) or (_dotted(e) is not None)
+            rows = []
+            for e in s.iter.elts:
+                if names is not None and len(names) == 1 and isinstance(s.target, ast.Name) and atom(e):
+                    rows.append([e])
+                elif names is not None and isinstance(s.target, ast.Tuple) and isinstance(e, (ast.Tuple, ast.List)) \
+                        and len(e.elts) == len(names) and all(atom(x) for x in e.elts):
+                    rows.append(list(e.elts))
+                else:
+                    rows = None
+                    break
+            jumps = any(isinstance(n, (ast.Break, ast.Continue)) for b in s.body for n in ast.walk(b))
+            after = stmts[i + 1:]
+            if rows and names and not jumps and not any(_stores(b, nm) for b in s.body for nm in names) \
+                    and not any(_loads(r, nm) for r in after for nm in names):
+                unrolled = []
+                for row in rows:
+                    for b in s.body:
+                        c = copy.deepcopy(b)
+                        for nm, val in zip(names, row):
+                            c = _Subst(nm, val).visit(c)
+                        unrolled.append(c)
+                stmts[i:i + 1] = unrolled
+                continue
+        # R11: if isinstance(x, Path): x = str(x)   dropped when every later read of x in this block is str(x)
+        if isinstance(s, ast.If) and not s.orelse and len(s.body) == 1 and isinstance(s.test, ast.Call) and isinstance(s.test.func, ast.Name) \
+                and s.test.func.id == "isinstance" and len(s.test.args) == 2 and not s.test.keywords \
+                and isinstance(s.test.args[0], ast.Name) and isinstance(s.test.args[1], ast.Name) and s.test.args[1].id == "Path" \
+                and isinstance(s.body[0], ast.Assign) and len(s.body[0].targets) == 1 and isinstance(s.body[0].targets[0], ast.Name) \
+                and s.body[0].targets[0].id == s.test.args[0].id and _is_call(s.body[0].value, "str") \
+                and isinstance(s.body[0].value.args[0], ast.Name) and s.body[0].value.args[0].id == s.test.args[0].id:
+            x = s.test.args[0].id
+            rest = stmts[i + 1:]
+            wrapped = sum(1 for r in rest for n in ast.walk(r) if _is_call(n, "str") and isinstance(n.args[0], ast.Name) and n.args[0].id == x)
+            if sum(_loads(r, x) for r in rest) == wrapped and not any(_stores(r, x) for r in rest):
+                i += 1
+                continue
+        # R9: with a, b: S  ->  with a: with b: S   (the language defines the former as the latter)
+        if isinstance(s, ast.With) and len(s.items) > 1:
+            inner = ast.With(items=s.items[1:], body=s.body, lineno=s.lineno)
+            stmts[i] = ast.With(items=s.items[:1], body=[inner], lineno=s.lineno)
             continue
         # R5b: if C: t = A else: t = B  ->  t = A if C else B
         if isinstance(s, ast.If) and len(s.body) == 1 and len(s.orelse) == 1 and all(
